@@ -9,6 +9,7 @@ import (
 	"fmt"
 	"math"
 	"math/big"
+	"os"
 	"sort"
 	"strings"
 
@@ -33,6 +34,9 @@ type hist struct {
 	// Classify, when set, makes this a case of miner.validateTransaction (block generation's
 	// past / current / future classification of a transaction nonce).
 	Classify *clsCase `json:"classify,omitempty"`
+	// Real: the transactions call the real faucetsc / vestingsc / zcnsc contracts (registered behind a
+	// recorder); run on the implementation oracles only, the contracts are not modelled here.
+	Real bool `json:"real,omitempty"`
 }
 
 type clsCase struct {
@@ -60,8 +64,15 @@ func env(fee, events bool) *chainh.Env {
 
 var universe = chainh.NewUniverse(400, 16)
 
+func newState(h hist) *chainh.State {
+	if h.Real {
+		return chainh.NewRealState(env(h.Fee, h.Events), universe, h.Init)
+	}
+	return chainh.NewState(env(h.Fee, h.Events), universe, h.Init, h.Nodes)
+}
+
 func run(h hist) []step {
-	st := chainh.NewState(env(h.Fee, h.Events), universe, h.Init, h.Nodes)
+	st := newState(h)
 	out := make([]step, 0, len(h.Txns))
 	pre := universe.Snapshot(st.MPT)
 	for i, t := range h.Txns {
@@ -185,7 +196,7 @@ func simulate(pre map[int]uint64, l []chainh.Tr) (final map[int]*big.Int, failAt
 type stats struct {
 	applied, appliedMoved, rejected, nonceRej, fundsRej, chargeable, chargeableDirty, internal int
 	laterTransferFailed, multiTransfer, capBypassed, signedApplied                            int
-	reads, ghostWrites                                                                        int
+	reads, ghostWrites, realUnknown                                                           int
 }
 
 func check(h hist, steps []step) ([]viol, stats) {
@@ -274,7 +285,7 @@ func check(h hist, steps []step) ([]viol, stats) {
 			add("C01:supply-changed", "txn %d (type %d, applied=%v status=%d) changed the sum of balances from %s to %s",
 				i, t.Type, applied, s.res.Status, total(s.pre), total(s.post))
 		}
-		if s.post.Unknown != s.pre.Unknown {
+		if s.post.Unknown != s.pre.Unknown && !h.Real {
 			add("C01:unaccounted-leaf", "txn %d created a leaf that is neither a client state nor a contract node", i)
 		}
 		// ---- rejected: nothing changes (C03 rejected_keeps_state, C05 failing transfer)
@@ -359,7 +370,7 @@ func check(h hist, steps []step) ([]viol, stats) {
 			if s.res.Status != 2 {
 				add("C02:failed-call-status", "txn %d: the contract returned an error but the status is %d", i, s.res.Status)
 			}
-			if s.res.Rec.Called && s.res.Output != chainh.OutText(s.res.Rec.Out) {
+			if s.res.Rec.Called && !s.res.Rec.Real && s.res.Output != chainh.OutText(s.res.Rec.Out) {
 				add("C02:failed-call-output", "txn %d: output %q is not the contract's error %q", i, s.res.Output, chainh.OutText(s.res.Rec.Out))
 			}
 			if pre[t.From].Nonce != math.MaxInt64 && post[t.From].Nonce != pre[t.From].Nonce+1 {
@@ -445,6 +456,18 @@ func check(h hist, steps []step) ([]viol, stats) {
 					}
 				}
 			}
+			if h.Real {
+				for id := range union(pre, post) {
+					if post[id].Bal < pre[id].Bal && id != t.From && id != t.To {
+						add("C04:real-contract-debits-third-party", "txn %d (%s of contract %d) lowered account %d, which is neither the sender nor the called contract's wallet", i, t.Fn, t.To, id)
+					}
+				}
+				for _, tr := range append(append([]chainh.Tr{}, s.res.Rec.Trs...), s.res.Rec.Signed...) {
+					if tr.From == -999 || tr.To == -999 {
+						stt.realUnknown++
+					}
+				}
+			}
 			allowed := bi(t.Value)
 			if h.Fee {
 				allowed = new(big.Int).Add(allowed, bi(t.Fee))
@@ -452,6 +475,9 @@ func check(h hist, steps []step) ([]viol, stats) {
 			if post[t.From].Bal < pre[t.From].Bal {
 				fell := new(big.Int).Sub(bi(pre[t.From].Bal), bi(post[t.From].Bal))
 				capHeld := t.Type != 1000 || (senderQueued.Cmp(bi(t.Value)) <= 0 && !signedFromSender)
+				if h.Real && fell.Cmp(allowed) > 0 {
+					add("C04:real-contract-overdebits-sender", "txn %d (%s of contract %d) lowered its sender by %s > value+fee = %s", i, t.Fn, t.To, fell, allowed)
+				}
 				if fell.Cmp(allowed) > 0 {
 					if capHeld {
 						add("C04:sender-debit-exceeds-value-fee", "txn %d lowered its sender by %s > value+fee = %s", i, fell, allowed)
@@ -1037,6 +1063,105 @@ func genScript(r *vh.Rand, p profile, t chainh.Txn, snap map[int]chainh.Acct, cl
 	return s
 }
 
+// ---------- real contracts (C04) ----------
+
+// genRealHist: adaptive history of calls of the real faucetsc (pour, refill), vestingsc (add, trigger,
+// unlock, stop, delete) and zcnsc (burn) through Chain.UpdateState, small valid and invalid inputs.
+func genRealHist(r *vh.Rand) hist {
+	h := hist{Fee: !r.Chance(1, 4), Real: true}
+	clients := []int{3, 4, 5, 6}
+	h.Init = append(h.Init, chainh.Acct{ID: chainh.IDMiner, Bal: uint64(r.Range(0, 1000)), Txn: -1})
+	for _, c := range clients {
+		h.Init = append(h.Init, chainh.Acct{ID: c, Bal: uint64(r.Range(200, 100000)), Txn: -1})
+	}
+	h.Init = append(h.Init, chainh.Acct{ID: chainh.IDFaucet, Bal: uint64(r.Range(0, 2000)), Txn: -1})
+	if r.Bool() {
+		h.Init = append(h.Init, chainh.Acct{ID: chainh.IDVesting, Bal: uint64(r.Range(0, 50)), Txn: -1})
+	}
+	if r.Bool() {
+		h.Init = append(h.Init, chainh.Acct{ID: chainh.IDZcn, Bal: uint64(r.Range(0, 50)), Txn: -1})
+	}
+	sort.Slice(h.Init, func(i, j int) bool { return h.Init[i].ID < h.Init[j].ID })
+	st := newState(h)
+	type pool struct{ idx, owner int }
+	var pools []pool
+	n := r.Range(4, 16)
+	round := int64(5)
+	for i := 0; i < n; i++ {
+		snap := acctMap(universe.Snapshot(st.MPT))
+		round++
+		from := clients[r.Intn(len(clients))]
+		t := chainh.Txn{Type: 1000, From: from, Round: round, Nonce: snap[from].Nonce + 1, Fee: uint64(r.Range(0, 5))}
+		poolOf := func() (string, int) {
+			if len(pools) == 0 || r.Chance(1, 10) {
+				return chainh.VestingPoolID(90), from
+			}
+			p := pools[r.Intn(len(pools))]
+			if r.Chance(2, 3) {
+				t.From = p.owner
+				t.Nonce = snap[p.owner].Nonce + 1
+			}
+			return chainh.VestingPoolID(p.idx), p.owner
+		}
+		switch x := r.Intn(100); {
+		case x < 20:
+			t.To, t.Fn = chainh.IDFaucet, "pour"
+			t.Value = uint64(r.Range(0, 120))
+		case x < 30:
+			t.To, t.Fn = chainh.IDFaucet, "refill"
+			t.Value = uint64(r.Range(0, 300))
+		case x < 50:
+			t.To, t.Fn = chainh.IDVesting, "add"
+			nd := r.Range(1, 3)
+			var ds []string
+			sum := uint64(0)
+			for k := 0; k < nd; k++ {
+				a := uint64(r.Range(1, 60))
+				sum += a
+				ds = append(ds, fmt.Sprintf(`{"id":%q,"amount":%d}`, chainh.AccountID(clients[r.Intn(len(clients))]), a))
+			}
+			t.Value = sum + uint64(r.Range(0, 20))
+			if r.Chance(1, 6) {
+				t.Value = sum / 2
+			}
+			t.Input = fmt.Sprintf(`{"description":"verif","start_time":0,"duration":%d,"destinations":[%s]}`, int64(r.Range(1, 12))*1000000000, strings.Join(ds, ","))
+			pools = append(pools, pool{i, from})
+		case x < 60:
+			t.To, t.Fn = chainh.IDVesting, "trigger"
+			id, _ := poolOf()
+			t.Input = fmt.Sprintf(`{"pool_id":%q}`, id)
+		case x < 70:
+			t.To, t.Fn = chainh.IDVesting, "unlock"
+			id, _ := poolOf()
+			t.Input = fmt.Sprintf(`{"pool_id":%q}`, id)
+		case x < 76:
+			t.To, t.Fn = chainh.IDVesting, "stop"
+			id, _ := poolOf()
+			t.Input = fmt.Sprintf(`{"pool_id":%q,"destination":%q}`, id, chainh.AccountID(clients[r.Intn(len(clients))]))
+		case x < 82:
+			t.To, t.Fn = chainh.IDVesting, "delete"
+			id, _ := poolOf()
+			t.Input = fmt.Sprintf(`{"pool_id":%q}`, id)
+		case x < 96:
+			t.To, t.Fn = chainh.IDZcn, "burn"
+			t.Value = uint64(r.Range(0, 40))
+			t.Input = fmt.Sprintf(`{"ethereum_address":"0x%040x"}`, 0x5000+r.Range(0, 3))
+			if r.Chance(1, 8) {
+				t.Input = `{"ethereum_address":""}`
+			}
+		default:
+			t.To, t.Fn = []int{chainh.IDFaucet, chainh.IDVesting, chainh.IDZcn}[r.Intn(3)], "no-such-function"
+			t.Input = `{"x":1`
+		}
+		if r.Chance(1, 12) {
+			t.Value = snap[t.From].Bal + uint64(r.Range(0, 2))
+		}
+		h.Txns = append(h.Txns, t)
+		st.Apply(i, t)
+	}
+	return h
+}
+
 // ---------- genesis (C01) ----------
 
 func genGenesis(r *vh.Rand) []chainh.GenGroup {
@@ -1365,6 +1490,24 @@ func main() {
 				rep.Count("contract-" + steps[i].res.Rec.Class)
 			}
 		}
+		if h.Real {
+			names := map[int]string{chainh.IDFaucet: "faucetsc", chainh.IDVesting: "vestingsc", chainh.IDZcn: "zcnsc"}
+			for i, t := range h.Txns {
+				out := "rejected"
+				if steps[i].res.Applied {
+					out = fmt.Sprintf("status%d-transfers%d", steps[i].res.Status, len(steps[i].res.Rec.Trs))
+				}
+				rep.Count("real-" + names[t.To] + "." + t.Fn + "-" + out)
+				if os.Getenv("VERIF_DBG") != "" && steps[i].res.Status == 2 {
+					o := steps[i].res.Output
+					if len(o) > 70 {
+						o = o[:70]
+					}
+					rep.Count("DBG " + t.Fn + ": " + o)
+				}
+			}
+			rep.CountN("real-transfer-names-unknown-account", st.realUnknown)
+		}
 		rep.CountN("later-transfer-of-txn-failed", st.laterTransferFailed)
 		rep.CountN("node-reads-through-context", st.reads)
 		rep.CountN("cacheable-writes-of-calls-that-did-not-commit", st.ghostWrites)
@@ -1458,6 +1601,13 @@ func main() {
 			}
 		}
 		rep.Note("exhaustive single-transfer scope: %d one-transaction histories (6 source x 6 destination balances x 7 amounts, send and contract-queued, fees on/off) run on the implementation oracle; a third of them (all in the thorough tier) also compared with the model", nEx)
+	}
+	if prop == "C04" {
+		nr := o.N(150, 1500)
+		for i := 0; i < nr; i++ {
+			handle(genRealHist(rnd), false)
+		}
+		rep.Note("real contracts: %d histories of 4-16 calls of the real faucetsc (pour, refill), vestingsc (add, trigger, unlock, stop, delete) and zcnsc (burn) executed through Chain.UpdateState behind a recorder of what they queue; judged by the C04 oracle (debits attributed to the recorded transfers + fee, sender debit <= value+fee, no account debited other than the sender and the called contract's wallet); not compared with the model", nr)
 	}
 	if prop == "C05" || prop == "C04" {
 		hs := exhaustiveOrder()
